@@ -40,8 +40,9 @@ type replayRec struct {
 }
 
 type agg struct {
-	mu sync.Mutex
-	c  *vf.Ctx
+	mu    sync.Mutex
+	c     *vf.Ctx
+	noted map[string]bool
 }
 
 func (a *agg) merge(st *stats) {
@@ -59,7 +60,13 @@ func (a *agg) merge(st *stats) {
 		a.c.Violation(v.fp, v.what, v.rec)
 	}
 	for _, n := range st.notes {
-		a.c.Note(n)
+		if a.noted == nil {
+			a.noted = map[string]bool{}
+		}
+		if !a.noted[n] && len(a.noted) < 12 {
+			a.noted[n] = true
+			a.c.Note(n)
+		}
 	}
 	for _, s := range st.samples {
 		if a.c.WantSample() {
